@@ -37,7 +37,7 @@ def gen_cases(rng, tier, corr, stats):
     maxlen = 4096 if tier == "quick" else 65536
     msg_lens = gen.boundary_lengths(8, maxlen)
     out_lens = [0, 1, 7, 8, 9, 31, 32, 33, 64, 1000] + ([5000] if tier == "thorough" else [])
-    decl = [0, 1, 31, 32, 33, 64, 2 ** 29 - 1, 2 ** 29, 2 ** 32 - 1]
+    decl = [0, 1, 2, 4, 8, 31, 32, 33, 64, 255, 256, 2 ** 29 - 1, 2 ** 29, 2 ** 32 - 1]      # incl. lengths whose bit count is a "special" byte count (4 bytes = 32 bits, 32 bytes = 256 bits)
     names = [None, b"", b"K", b"N" * 31, b"N" * 32, b"N" * 33, bytes(range(65, 65 + 26)) * 4]
     customs = [b"", b"c", b"c" * 7, b"c" * 8, b"c" * 9, b"custom" * 10]
     reps = 1 if tier == "quick" else 6
@@ -110,6 +110,9 @@ def run(res, tier, seed, replay=None):
             got = b.get(cfg)
             if got:
                 per.append(diffrun.compare(res, corr, driver, got[1], got[2]))
+                if tier == "thorough" and not replay and got[2] in ("default", "c32"):
+                    # lengths of 2^32 bytes and more: size_t parameters must not be processed modulo 2^32 (harness/x_huge.c)
+                    res.cov.setdefault("huge_lengths", {})[got[2]] = common.run_huge(res, got[0], got[2], ["xof", "xofa"] if got[2] == "default" else ["xof", "xofa"][:1])
     res.cov.update({
         "evaluations": sum(p["sessions"] for p in per),
         "distinct_nontrivial": max([p["nontrivial"] for p in per] or [0]),
